@@ -32,7 +32,7 @@ BLEN = len(BODY_POINTS)
 # (initial directory, body outcome)
 SCENARIOS = [("fresh", "ok"), ("failed", "ok"), ("done", "ok"), ("fresh", "exc"), ("fresh", "exit3"), ("fresh", "exit0")]
 WORKERS = 16
-CASE_KEYS = ("scenario", "k", "sig", "bodykill", "loc", "k2", "sig2", "loc2")
+CASE_KEYS = ("scenario", "k", "sig", "bodykill", "loc", "k2", "sig2", "loc2", "notify", "shape", "act")
 
 # known findings: the assembled known_findings.json is written by the lead (tools/mkmanifest.py); until then
 # (and afterwards, identically) the fragment of this property is read directly  -- local work-around, see report
@@ -79,8 +79,36 @@ class Body(Task):
                 if at == name:
                     os.kill(os.getpid(), int(sig))
 
-        for name in %(points)r:
-            pt(name)
+        points = %(points)r
+        shape = os.environ.get("C10_SHAPE", "plain")   # how the body protects the step at which it may be interrupted
+        act = os.environ.get("C10_BODYACT", "")         # something the body does to its own directory first
+        pt(points[0])
+        if act == "rmnotif":   # the task removes the notification folder of its job directory
+            import shutil
+            shutil.rmtree(Path.cwd() / ".notifications", ignore_errors=True)
+        elif act == "rmpid":   # ... or its pid file (already-removed file at clean-up time)
+            for f in Path.cwd().glob("*.pid"):
+                f.unlink()
+        elif act == "rmlock":  # ... or the lock file it holds
+            for f in Path.cwd().glob("*.lock"):
+                f.unlink()
+        if shape == "catch":       # "log and skip this item": the interrupted step is inside try/except Exception
+            try:
+                pt(points[1])
+            except Exception:
+                pt("caught")
+            for name in points[2:]:
+                pt(name)
+        elif shape == "finally":   # try/finally around the interrupted step
+            try:
+                pt(points[1])
+            finally:
+                pt("fin")
+            for name in points[2:]:
+                pt(name)
+        else:
+            for name in points[1:]:
+                pt(name)
         out = os.environ.get("C10_OUTCOME", "ok")
         if out == "exc":
             raise RuntimeError("boom")
@@ -162,11 +190,12 @@ def get_template(ctx):
 # ---------------------------------------------------------------- real code: one launch
 
 
-def launch(tpl, jd, k, sig, outcome, bodykill=""):
+def launch(tpl, jd, k, sig, outcome, bodykill="", shape="plain", act=""):
     """the scheduler side of `aio_start`/`aio_run`: take the job lock, spawn, write the pid file, release"""
     import fasteners
 
-    env = dict(os.environ, C10_BODYLOG=str(jd / "bodylog"), C10_OUTCOME=outcome, C10_BODYKILL=bodykill)
+    env = dict(os.environ, C10_BODYLOG=str(jd / "bodylog"), C10_OUTCOME=outcome, C10_BODYKILL=bodykill,
+               C10_SHAPE=shape, C10_BODYACT=act)
     lock = fasteners.InterProcessLock(str(jd / tpl.rel["lock"]))
     with lock:
         with open(jd / "stderr", "a") as err:
@@ -180,6 +209,66 @@ def launch(tpl, jd, k, sig, outcome, bodykill=""):
         p.kill()
         p.wait()
         return "timeout"
+
+
+class Endpoints:
+    """local notification endpoints: answer (HTTP 200), drop (accepts, closes without answering), refused (nobody
+    listens), garbled (the URL file holds no URL)"""
+
+    def __init__(self):
+        self.urls = None
+
+    def start(self):
+        import http.server
+        import socket
+        import threading
+
+        class H(http.server.BaseHTTPRequestHandler):
+            def do_GET(self):
+                self.send_response(200)
+                self.send_header("Content-Length", "2")
+                self.end_headers()
+                self.wfile.write(b"ok")
+
+            def log_message(self, *a):
+                pass
+
+        ok = http.server.ThreadingHTTPServer(("127.0.0.1", 0), H)
+        ok.daemon_threads = True
+        threading.Thread(target=ok.serve_forever, daemon=True).start()
+        drop = socket.socket()
+        drop.bind(("127.0.0.1", 0))
+        drop.listen(64)
+
+        def dropper():
+            while True:
+                try:
+                    c, _ = drop.accept()
+                    c.close()
+                except OSError:
+                    return
+
+        threading.Thread(target=dropper, daemon=True).start()
+        free = socket.socket()
+        free.bind(("127.0.0.1", 0))
+        refused_port = free.getsockname()[1]
+        free.close()
+        self._keep = (ok, drop)
+        self.urls = {"answer": f"http://127.0.0.1:{ok.server_address[1]}/notifications/c10",
+                     "drop": f"http://127.0.0.1:{drop.getsockname()[1]}/notifications/c10",
+                     "refused": f"http://127.0.0.1:{refused_port}/notifications/c10",
+                     "garbled": ""}
+
+    def url(self, kind):
+        if self.urls is None:
+            self.start()
+        return self.urls[kind]
+
+
+ENDPOINTS = Endpoints()
+NOTIFY = ["answer", "drop", "refused", "garbled"]
+SHAPES = ["plain", "catch", "finally"]
+ACTS = ["rmnotif", "rmpid", "rmlock"]
 
 
 def dirstate(tpl, jd):
@@ -217,13 +306,19 @@ def run_case(tpl, case):
     try:
         sig = SIGS.get(case["sig"], 0)
         bk = f"{case['bodykill']}:{sig}" if case.get("bodykill") else ""
+        shape, act = case.get("shape", "plain"), case.get("act", "")
+        if case.get("notify"):  # a notification listener registered for the job, as Job.add_notification_server does
+            nd = jd / ".notifications"
+            nd.mkdir(exist_ok=True)
+            (nd / "c10").write_text(ENDPOINTS.url(case["notify"]))
         if bk and case.get("sig2"):  # fault sequence: signal inside the body, then a second one at the k2-th line of run.py
-            rc = launch(tpl, jd, case["k2"], SIGS[case["sig2"]], outcome, bk)
+            rc = launch(tpl, jd, case["k2"], SIGS[case["sig2"]], outcome, bk, shape, act)
         else:
-            rc = launch(tpl, jd, case.get("k", 0) if not bk else 0, sig, outcome, bk)
+            rc = launch(tpl, jd, case.get("k", 0) if not bk else 0, sig, outcome, bk, shape, act)
         st = dirstate(tpl, jd)
         bl = bodylog(jd)
         eff = _read_log(jd / "efflog")
+        stderr1 = (jd / "stderr").read_text()[-600:] if (jd / "stderr").exists() else ""
         n0 = len(bl)
         rc2 = launch(tpl, jd, 0, 0, "ok")
         bl2 = bodylog(jd)[n0:]
@@ -236,7 +331,7 @@ def run_case(tpl, case):
     nlines = max([e["n"] for e in eff if e["ev"] in ("lines", "lines-final") and e.get("n") is not None] or [0])
     return {"rc": rc, "dir": st, "starts": bl.count("start"), "completed": "end" in bl, "bodylog": bl,
             "relaunch": {"rc": rc2, "ran": bl2.count("start"), "dir": st2, "completed": "end" in bl2},
-            "kill": kill, "pre": pre, "nlines": nlines, "stderr": stderr_tail}
+            "kill": kill, "pre": pre, "nlines": nlines, "stderr": stderr_tail, "stderr1": stderr1}
 
 
 # ---------------------------------------------------------------- locating the model program location
@@ -396,7 +491,27 @@ def monitors(ctx, case, obs):
     tag = f"{init}/{outcome} k={case.get('k', 0)} body={case.get('bodykill', '')} sig={sig}"
     if case.get("sig2"):
         tag += f" then line {case['k2']} sig={case['sig2']}"
-    rcase = {k: case[k] for k in ("scenario", "k", "sig", "bodykill", "k2", "sig2") if k in case}
+    if case.get("notify") or case.get("shape") or case.get("act"):
+        tag += f" notify={case.get('notify')} body-shape={case.get('shape', 'plain')} act={case.get('act', '')}"
+    rcase = {k: case[k] for k in ("scenario", "k", "sig", "bodykill", "k2", "sig2", "notify", "shape", "act") if k in case}
+    # 4c. the process does not keep running its body after it handled a termination signal.
+    # With a helper fault (notification endpoint / something removed from the job directory) the three symptoms of an
+    # exception that escapes `handle_error` before `sys.exit(1)` (body goes on, both markers, exit status 0) are one
+    # finding, keyed by the helper fault class -- this is the real-code counterpart of the model rule "the handler always
+    # ends with exit".
+    helper = case.get("act") or case.get("notify")
+    if sig in ("term", "int") and case.get("bodykill") and not case.get("sig2") and case["bodykill"] in obs["bodylog"]:
+        after = [m for m in obs["bodylog"][obs["bodylog"].index(case["bodykill"]) + 1:] if m != "fin"]
+        if helper and (after or d["failed"] is None or d["done"] or obs["rc"] in (0, None)):
+            ctx.monitor_fail(f"handler-exception-escapes:{helper}",
+                             f"[{tag}] termination signal inside the body: marks after the signal {after}, exit status {obs['rc']}, "
+                             f"directory {d} (expected: no further mark, non-zero status, failure marker, no success marker); stderr: "
+                             f"{obs.get('stderr1', '')[-300:]!r}", rcase)
+            return True
+        if after:
+            ctx.monitor_fail("body-continues-after-termination-signal",
+                             f"[{tag}] the body went on after the termination signal was handled: marks {after} after {case['bodykill']!r}; "
+                             f"exit status {obs['rc']}, directory {d}", rcase)
     # 1. a success marker only if the task body ran to completion
     if d["done"] and init != "done" and not obs["completed"]:
         ctx.monitor_fail("done-without-completion", f"[{tag}] success marker present although the body never completed (body log {obs['bodylog']})", rcase)
@@ -442,6 +557,7 @@ def monitors(ctx, case, obs):
     # exit status sanity: a success marker written by this process <=> exit 0 when undisturbed
     if sig == "none" and init != "done" and (obs["rc"] == 0) != d["done"]:
         ctx.monitor_fail("status-vs-marker", f"[{tag}] undisturbed run: exit status {obs['rc']} but directory {d}", rcase)
+    return False
 
 
 # ---------------------------------------------------------------- the enumeration
@@ -491,6 +607,26 @@ def plan_sequences(ctx, thorough):
     return cases
 
 
+def plan_helpers(ctx, thorough):
+    """the helper modules the runner calls between "marker written" and "process exit" (notifications.Reporter.eoj,
+    rmfile(pid), lock release) with their failing variants, under the three body shapes: SIGTERM/SIGINT inside the
+    protected region of the body; and undisturbed runs (eoj is also called on the way out of a job that ended on its own)"""
+    cases = []
+    sc = list(SCENARIOS[0])
+    for n in NOTIFY:
+        for sh in SHAPES:
+            for sg in ("term", "int"):
+                cases.append({"scenario": sc, "bodykill": SEQ_POINT, "sig": sg, "k": 0, "notify": n, "shape": sh})
+        for o in ("ok", "exc"):
+            cases.append({"scenario": ["fresh", o], "k": 0, "sig": "none", "notify": n, "shape": "plain"})
+    for a in ACTS:
+        for sh in (SHAPES if thorough else ("catch",)):
+            for sg in (("term", "int") if thorough else ("term",)):
+                cases.append({"scenario": sc, "bodykill": SEQ_POINT, "sig": sg, "k": 0, "notify": "answer", "shape": sh, "act": a})
+        cases.append({"scenario": sc, "k": 0, "sig": "none", "notify": "answer", "shape": "plain", "act": a})
+    return cases
+
+
 def evaluate(ctx, tpl, cases, unreg, with_model=True):
     obs = run_all(ctx, tpl, cases)
     lines, idx = [], []
@@ -505,7 +641,12 @@ def evaluate(ctx, tpl, cases, unreg, with_model=True):
             # the second fault came before the first (or its line was never reached): not a sequence
             ctx.count("skipped", "second-fault-not-after-first")
             continue
-        monitors(ctx, c, o)
+        if monitors(ctx, c, o):
+            # the model rule (no exception escapes handle_error) is violated by the real code on this input: reported by the
+            # monitor above with the concrete input; the model run would only repeat it
+            ctx.count("skipped", "model-rule-violated")
+            ctx.case({k: c.get(k) for k in CASE_KEYS if c.get(k) is not None}, nontrivial=True)
+            continue
         loc = model_loc(c, o) if c["sig"] != "none" else None
         c = dict(c, loc=loc)
         if c.get("sig2"):
@@ -566,7 +707,11 @@ def plan(ctx, nlines, thorough, k0=0):
 def correspond(ctx):
     ctx.rule = ("cases = (initial directory, body outcome) x (k-th executed line of run.py | point inside the body) x "
                 "(SIGKILL, SIGTERM, SIGINT), plus fault sequences (signal inside the body, then a second fault at every line executed "
-                "afterwards), each followed by an undisturbed relaunch; thorough enumerates every executed line, "
+                "afterwards), plus helper faults: a notification endpoint (answers | drops the connection | refuses | garbled URL file) or a "
+                "file the clean-up touches removed by the task (notification folder | pid file | lock file) x body shape (plain | "
+                "try/except Exception | try/finally around the interrupted step) x SIGTERM/SIGINT inside the protected region -- the "
+                "real-code counterpart of the model rule 'no exception escapes handle_error before sys.exit(1)' (Model/Runner: the "
+                "handler always ends with `exit`); each followed by an undisturbed relaunch; thorough enumerates every executed line, "
                 "quick a seeded subset; non-trivial = the signal arrives after TaskRunner.run registered its clean-up "
                 "(model location != init); distinct = distinct (scenario, line, signal, model location)")
     ctx.assumptions += [
@@ -591,7 +736,7 @@ def correspond(ctx):
                      f"theorems signal_in_body_marks_failed / marker_precedes_cleanup {'apply' if MF[0] else 'do not apply to this source'}")
     ctx.extra_cov["source_variant_marker_first"] = MF[0]
     ctx.notes.append(f"fault sequences: second fault at line events {SEQ_RANGE[0]}..{SEQ_RANGE[1]} after a signal at body point {SEQ_POINT}")
-    cases = bcases + plan(ctx, nlines, thorough, k0) + plan_sequences(ctx, thorough)
+    cases = bcases + plan(ctx, nlines, thorough, k0) + plan_sequences(ctx, thorough) + plan_helpers(ctx, thorough)
     cases, obs = evaluate(ctx, tpl, cases, unreg)
     ctx.exhaustive = thorough
     # coverage of the model's locations by real kill points
@@ -640,7 +785,7 @@ def search(ctx):
     nlines = {tuple(c["scenario"]): o["nlines"] for c, o in zip(bcases, bobs)}
     t0 = time.time()
     k0 = next((e.get("n", 0) for e in bobs[0]["pre"] if e["ev"] == "lock-acquired"), 0)
-    cases = bcases + plan_sequences(ctx, True) + plan(ctx, nlines, True, k0)
+    cases = bcases + plan_helpers(ctx, True) + plan_sequences(ctx, True) + plan(ctx, nlines, True, k0)
     for i in range(0, len(cases), 96):
         if time.time() - t0 > ctx.scale(60, 600) or [m for m in ctx.monitor_failures if not m["key"].startswith("own-exit-pid-left:success")]:
             break
